@@ -229,10 +229,13 @@ func (n *networkService) AllocIP(ctx context.Context, r *rpc.AllocIPRequest) (*r
 	resp, err := n.eniMgr.Allocate(ctx, cni, &eni.AllocRequest{
 		ResourceRequests: resourceRequests,
 	})
+	// whatever this request took is handed back if it fails, now or at any later step
+	defer func() {
+		if err != nil {
+			n.rollbackAlloc(ctx, cni, oldRes, resp)
+		}
+	}()
 	if err != nil {
-		_ = n.eniMgr.Release(ctx, cni, &eni.ReleaseRequest{
-			NetworkResources: resp,
-		})
 		return nil, err
 	}
 
@@ -292,6 +295,35 @@ func (n *networkService) AllocIP(ctx context.Context, r *rpc.AllocIPRequest) (*r
 	reply.Success = true
 
 	return reply, nil
+}
+
+// rollbackAlloc releases the resources a failed AllocIP took. Resources the pod already had on
+// record (a repeated ADD gets its recorded address back) belong to the earlier, acknowledged
+// request and stay with the pod.
+func (n *networkService) rollbackAlloc(ctx context.Context, cni *daemon.CNI, oldRes daemon.PodResources, resp eni.NetworkResources) {
+	recorded := sets.New[string]()
+	for _, item := range oldRes.Resources {
+		recorded.Insert(item.Type + "/" + item.ID)
+	}
+	var taken []eni.NetworkResource
+	for _, res := range resp {
+		items := res.ToStore()
+		kept := len(items) > 0
+		for _, item := range items {
+			if !recorded.Has(item.Type + "/" + item.ID) {
+				kept = false
+			}
+		}
+		if !kept {
+			taken = append(taken, res)
+		}
+	}
+	if len(taken) == 0 {
+		return
+	}
+	_ = n.eniMgr.Release(ctx, cni, &eni.ReleaseRequest{
+		NetworkResources: taken,
+	})
 }
 
 func (n *networkService) ReleaseIP(ctx context.Context, r *rpc.ReleaseIPRequest) (*rpc.ReleaseIPReply, error) {
